@@ -83,6 +83,9 @@ func cmdVerify(args []string) {
 	tmp := fs.String("tmp", "", "scratch dir for queries")
 	verbose := fs.Bool("v", false, "verbose")
 	fs.Parse(args)
+	if os.Getenv("GOVC_TIER") == "thorough" {
+		thoroughTier = true
+	}
 	start := time.Now()
 	eng, err := loadEngine(*repo, allPatterns)
 	rep := &Report{Repo: *repo, Trusted: map[string]string{}, Library: map[string]string{}}
